@@ -17,7 +17,7 @@ VERIF = os.path.dirname(HERE)
 CYCLE_QUOTES = {"SUBSUPER_LOOP": r"Entity (\w+) is a subtype of itself$", "SELECT_LOOP": r"Select type (\w+) selects itself$",
                 "SUBSUPER_CONTINUATION": r"\s*\(via supertype entity (\w+)\)$", "SELECT_CONTINUATION": r"\s*\(via select type (\w+)\)$"}
 CYCLE_CODES = {"SUBSUPER_LOOP", "SELECT_LOOP", "SUBSUPER_CONTINUATION", "SELECT_CONTINUATION"}
-EXTRACTORS = ["liberrors", "resolvegen"]
+EXTRACTORS = ["liberrors", "resolvegen", "reportsites"]
 
 # minimal inputs per lexical diagnostic, used to shrink a replay
 MINIMAL = {
